@@ -43,7 +43,9 @@ class Prop:
         spec_ok = None
         if reply.get("spec") is not None:
             spec_ok = core.results_agree(impl, reply["spec"])
-        return dict(agree=agree, spec_ok=spec_ok, why="" if agree else "observations differ")
+        ki, km = core.norm_result(impl, True)[0], core.norm_result(model, False)[0]
+        concrete = (not agree) and not (ki == "err" and km == "err")
+        return dict(agree=agree, spec_ok=spec_ok, why="" if agree else "observations differ", concrete=concrete)
 
     def nontrivial(self, req, impl, reply):
         return True
